@@ -43,3 +43,10 @@ Inductive pct_text (plus : bool) : bytes -> Prop :=
 | pt_pct : forall h l r, upper_hexdig h -> upper_hexdig l -> pct_text plus r ->
            pct_text plus (37 :: h :: l :: r)
 | pt_plus : forall r, plus = true -> pct_text plus r -> pct_text plus (43 :: r).
+
+(* the inputs the URL decoders decode (rather than return unchanged) *)
+Inductive pct_escaped : bytes -> Prop :=     (* every '%' is followed by two hex digits *)
+| pe_nil : pct_escaped []
+| pe_pct : forall h l r a b, unhex h = Some a -> unhex l = Some b -> pct_escaped r -> pct_escaped (37 :: h :: l :: r)
+| pe_other : forall c r, c <> 37 -> pct_escaped r -> pct_escaped (c :: r).
+
